@@ -5,10 +5,12 @@ import BearVerif.Extracted.Memo
     `Core/Memo.lean`, in the repair state read from `Extracted/Memo.lean`, over an abstract trace in which the
     harness has replaced every hint by what Python's own `==`/`hash`/`repr` say about it and every TypeHint
     wrapper by the address CPython gave it. Per operation it answers what the instrumented tables must show:
-      (bear TAG V)        → (hit|miss cached|uncached absent|eq|neq)   checker table before / after, repr entry vs hint
+      (bear TAG V CTX)    → (hit|miss cached|uncached absent|eq|neq)   checker table before / after, repr entry vs hint
+                                                                        (asked from context CTX: class / caller scope)
+      (tree V)            → (cacheable|uncacheable)                     is_check_expr_cacheable after visiting V's tree
       (thsub V ADDR V ADDR) → (whitA whitB idhit stale)                 wrapper-table hits, id-table hit, stale hit
       (clear)             → (cleared)
-    with V = (UID EQC REPR HASHABLE WORTHY). -/
+    with V = (UID EQC REPR HASHABLE WORTHY (REL…)), REL… = per hint of the tree in visiting order: context-relative? -/
 namespace BearVerif.Memo
 open BearVerif
 
@@ -25,9 +27,13 @@ def boolOf : Sexp → Option Bool
   | _ => none
 
 def valOf : Sexp → Option Val
-  | .list [u, e, r, h, w] => do
-    pure { uid := ← u.nat?, eqc := ← e.nat?, rep := ← r.str?, hashable := ← boolOf h, worthy := ← boolOf w }
+  | .list [u, e, r, h, w, .list vs] => do
+    pure { uid := ← u.nat?, eqc := ← e.nat?, rep := ← r.str?, hashable := ← boolOf h, worthy := ← boolOf w,
+           visit := ← vs.mapM boolOf }
   | _ => none
+
+/-- the accumulation `sanify_hint_child` implements, as read from the source -/
+def acc : List Bool → Bool := if Extracted.memoTreeFlag == "last" then treeCacheableLast else treeCacheable
 
 def b2s (b : Bool) : Sexp := .atom (if b then "true" else "false")
 
@@ -48,16 +54,21 @@ def wrap (s : Sys) (v : Val) (addr : Nat) : Sys × Bool :=
     ({ s with ids := ids2, wrapper := if v.hashable then (v, addr) :: s.wrapper else s.wrapper }, false)
 
 def stepSys (s : Sys) : Sexp → Option (Sys × Sexp)
-  | .list [.atom "bear", tag, v] => do
+  | .list [.atom "bear", tag, v, ctx] => do
     let v ← valOf v
     let tag ← tag.nat?
+    let ctx ← ctx.nat?
     let hit := v.hashable && (find (ckeyEq valLang) s.bear.checker (v, tag)).isSome
-    let r := askBear valLang checked meaningUid s.bear (v, tag)
+    let r := askBearC valLang (·.visit) acc checked (fun _ => meaningUid) s.bear ctx (v, tag)
+    let cachedAfter := v.hashable && (find (ckeyEq valLang) r.2.checker (v, tag)).isSome
     let stored := match find (fun a b => a == b) r.2.reprT v.rep with
       | none => "absent"
       | some v0 => if valLang.pyEq v0 v then "eq" else "neq"
     pure ({ s with bear := r.2 },
-      .list [.atom (if hit then "hit" else "miss"), .atom (if v.hashable then "cached" else "uncached"), .atom stored])
+      .list [.atom (if hit then "hit" else "miss"), .atom (if cachedAfter then "cached" else "uncached"), .atom stored])
+  | .list [.atom "tree", v] => do
+    let v ← valOf v
+    pure (s, .list [.atom (if acc v.visit then "cacheable" else "uncacheable")])
   | .list [.atom "thsub", va, aa, vb, ab] => do
     let va ← valOf va
     let vb ← valOf vb
